@@ -1,0 +1,167 @@
+//go:build verif
+
+// Contracts for the verifier in /verif (comment-only; compiled only with -tags verif, adds no code).
+package decoder
+
+// ---- C09: the type of a block target is the declared kind of the block (object, list, set, map of objects)
+// ---- over the attribute types its body schema declares.
+//@ contract decoder.bodyToDataType (blockType, body) (result)
+//@   ghost isList after cty.List#1 : true
+//@   ghost isMap after cty.Map#1 : true
+//@   ghost isSet after cty.Set#1 : true
+//@   ghost listT after cty.List#1 : callresult
+//@   ghost mapT after cty.Map#1 : callresult
+//@   ghost setT after cty.Set#1 : callresult
+//@   ensures [C09,name:list-block-is-a-list] (blockType == schema.BlockTypeList) == isList
+//@   ensures [C09,name:map-block-is-a-map] (blockType == schema.BlockTypeMap) == isMap
+//@   ensures [C09,name:set-block-is-a-set] (blockType == schema.BlockTypeSet) == isSet
+//@   ensures [C09] implies(isList, result == listT)
+//@   ensures [C09] implies(isMap, result == mapT)
+//@   ensures [C09] implies(isSet, result == setT)
+//@   ghost objT after cty.Object#1 : callresult
+//@   ghost objL after cty.Object#2 : callresult
+//@   ghost objM after cty.Object#3 : callresult
+//@   ghost objS after cty.Object#4 : callresult
+//@   ghost objD after cty.Object#5 : callresult
+//@   ghost isObj after cty.Object#1 : true
+//@   ghost isDflt after cty.Object#5 : true
+//@   ensures [C09,name:object-block-is-an-object] implies(blockType == schema.BlockTypeObject, isObj && result == objT)
+//@   ensures [C09,name:any-other-block-is-an-object] implies(blockType != schema.BlockTypeObject && blockType != schema.BlockTypeList && blockType != schema.BlockTypeMap && blockType != schema.BlockTypeSet, isDflt && result == objD)
+//@   assert before cty.List#1 : [C09,name:elements-are-objects-of-the-body] arg0 == objL
+//@   assert before cty.Map#1 : [C09,name:elements-are-objects-of-the-body] arg0 == objM
+//@   assert before cty.Set#1 : [C09,name:elements-are-objects-of-the-body] arg0 == objS
+//@   ghost attrsT after decoder.bodySchemaAsAttrTypes#1 : callresult
+//@   ghost attrsL after decoder.bodySchemaAsAttrTypes#2 : callresult
+//@   ghost attrsM after decoder.bodySchemaAsAttrTypes#3 : callresult
+//@   ghost attrsS after decoder.bodySchemaAsAttrTypes#4 : callresult
+//@   ghost attrsD after decoder.bodySchemaAsAttrTypes#5 : callresult
+//@   assert before cty.Object#1 : [C09,name:object-of-the-attribute-types-of-the-body] arg0 == attrsT
+//@   assert before cty.Object#2 : [C09,name:object-of-the-attribute-types-of-the-body] arg0 == attrsL
+//@   assert before cty.Object#3 : [C09,name:object-of-the-attribute-types-of-the-body] arg0 == attrsM
+//@   assert before cty.Object#4 : [C09,name:object-of-the-attribute-types-of-the-body] arg0 == attrsS
+//@   assert before cty.Object#5 : [C09,name:object-of-the-attribute-types-of-the-body] arg0 == attrsD
+//@   assert before decoder.bodySchemaAsAttrTypes#1 : [C09] arg0 == body
+//@   assert before decoder.bodySchemaAsAttrTypes#2 : [C09] arg0 == body
+//@   assert before decoder.bodySchemaAsAttrTypes#3 : [C09] arg0 == body
+//@   assert before decoder.bodySchemaAsAttrTypes#4 : [C09] arg0 == body
+//@   assert before decoder.bodySchemaAsAttrTypes#5 : [C09] arg0 == body
+
+// ---- C09: the attribute types of a body: an attribute is part of the data type exactly when its constraint
+// ---- yields a type, and then with that type; every nested block is a member under its block type name, typed
+// ---- by its own declared kind and its own body.
+//@ contract decoder.bodySchemaAsAttrTypes (bodySchema) (result)
+//@   ensures [C09] result != nil && fresh(result)
+//@   ensures [C09,name:nothing-without-a-schema] implies(bodySchema == nil, len(result) == 0)
+//@   ghost asked after invoke:ConstraintType#1 : true
+//@   loop 1 iter [C09,name:attribute-is-a-member-only-if-its-constraint-yields-a-type] implies(haskey(attrTypes, name) && !old(haskey(attrTypes, name)), asked && ok && attrTypes[name] == typ)
+//@   loop 1 iter [C09,name:attribute-with-a-type-is-a-member-with-that-type] implies(asked && ok, haskey(attrTypes, name) && attrTypes[name] == typ)
+//@   assert before invoke:ConstraintType#1 : [C09,name:type-of-the-attribute-s-own-constraint] cons == attr.Constraint
+//@   ghost blockT after decoder.bodyToDataType#1 : callresult
+//@   assert before decoder.bodyToDataType#1 : [C09,name:block-typed-by-its-own-kind-and-body] arg0 == block.Type && arg1 == block.Body
+//@   ghost blockTyped after decoder.bodyToDataType#1 : true
+//@   loop 2 iter [C09,name:no-block-is-left-out] blockTyped
+//@   loop 2 iter [C09,name:every-block-is-a-member-under-its-type-name] haskey(attrTypes, name) && attrTypes[name] == blockT
+
+// ---- C09: the blocks of a body, grouped by block type: only blocks whose type the schema declares are kept
+// ---- (nothing is collected for unknown blocks), each group carries the schema declared for that type, and a
+// ---- block is appended BEHIND the blocks of its type seen before (list index = source order).
+//@ contract decoder.blocksTypesWithSchema (body, bodySchema) (result)
+//@   ensures [C09] result != nil && fresh(result)
+//@   loop 1 iter [C09,name:unknown-block-types-are-not-collected] implies(!haskey(bodySchema.Blocks, block.Type), haskey(blockTypes, block.Type) == old(haskey(blockTypes, block.Type)))
+//@   loop 1 iter [C09,name:known-block-is-in-the-group-of-its-type] implies(haskey(bodySchema.Blocks, block.Type), haskey(blockTypes, block.Type) && blockTypes[block.Type] != nil && len(blockTypes[block.Type].Blocks) >= 1 && blockTypes[block.Type].Blocks[len(blockTypes[block.Type].Blocks)-1] == block)
+//@   loop 1 iter [C09,name:group-carries-the-schema-of-its-type] implies(haskey(bodySchema.Blocks, block.Type) && !old(haskey(blockTypes, block.Type)), blockTypes[block.Type].Schema == bodySchema.Blocks[block.Type] && len(blockTypes[block.Type].Blocks) == 1)
+//@   loop 1 iter [C09,name:appended-behind-the-earlier-blocks-of-the-type] implies(haskey(bodySchema.Blocks, block.Type) && old(haskey(blockTypes, block.Type)), blockTypes[block.Type] == old(blockTypes[block.Type]) && len(blockTypes[block.Type].Blocks) == old(len(blockTypes[block.Type].Blocks)) + 1)
+//@   loop 1 invariant [C09,claim] fresh(blockTypes) && forallkey(k, blockTypes, haskey(bodySchema.Blocks, k) && blockTypes[k] != nil && fresh(blockTypes[k]) && len(blockTypes[k].Blocks) >= 1)
+//@   ensures [C09,name:every-group-is-a-declared-block-type-with-at-least-one-block] forallkey(k, result, haskey(bodySchema.Blocks, k) && result[k] != nil && len(result[k].Blocks) >= 1)
+
+// ---- C09: a body the schema marks targetable yields one target per declared Targetable: its address is a copy
+// ---- of the declared one, scope, type and description are the declared ones, range and definition range are
+// ---- the enclosing block's extent and header; there is one nested target per declared nested targetable, in
+// ---- declaration order, built the same way from the same block.
+//@ contract decoder.decodeTargetableBody (body, parentBlock, tt) (result)
+//@   ensures [C09,name:declared-scope-and-type] result.ScopeId == old(tt.ScopeId) && result.Type == old(tt.AsType) && result.Description == old(tt.Description)
+//@   ensures [C09,name:address-is-a-copy-of-the-declared-steps] len(result.Addr) == len(old(tt.Address)) && fresh(result.Addr) && forall(j, 0, len(result.Addr), result.Addr[j] == old(tt.Address)[j])
+//@   ensures [C09,C02,name:range-is-the-enclosing-block] result.RangePtr != nil && *result.RangePtr == old(parentBlock.Range) && result.DefRangePtr != nil && *result.DefRangePtr == old(parentBlock.DefRange)
+//@   ensures [C09,name:one-nested-target-per-nested-targetable] len(result.NestedTargets) == len(old(tt.NestedTargetables))
+//@   assert before decoder.decodeTargetableBody#1 : [C09,name:nested-targetable-in-declaration-order-on-the-same-block] arg0 == body && arg1 == parentBlock && arg2 == tt.NestedTargetables[i]
+//@   loop 1 invariant [C09] fresh(target.NestedTargets) && len(target.NestedTargets) == len(tt.NestedTargetables)
+//@   loop 1 iter [C09,name:nested-target-carries-its-own-declaration] target.NestedTargets[i].ScopeId == ntt.ScopeId && target.NestedTargets[i].Type == ntt.AsType
+
+// ---- C09: the targets of a path are the targets of the root body of every parseable file under the path's
+// ---- root schema (no parent block); without a schema nothing is collected; an unreadable file is skipped and
+// ---- does not end the collection.
+//@ contract (*decoder.PathDecoder).CollectReferenceTargets (d) (result, err)
+//@   ensures [C09,name:nothing-without-a-schema] implies(old(d.pathCtx.Schema) == nil, err != nil && len(result) == 0)
+//@   ensures [C09,name:never-fails-with-a-schema] implies(old(d.pathCtx.Schema) != nil, err == nil && len(result) == len(refs))
+//@   ghost decoded after (*decoder.PathDecoder).decodeReferenceTargetsForBody#1 : true
+//@   assert before (*decoder.PathDecoder).decodeReferenceTargetsForBody#1 : [C09,name:root-body-of-the-file-under-the-root-schema] arg0 == d && arg1 == f.Body && arg2 == nil && arg3 == d.pathCtx.Schema
+//@   loop 1 iter [C09,name:targets-collected-so-far-are-kept] len(refs) >= old(len(refs)) && implies(!decoded, len(refs) == old(len(refs)))
+//@   loop 1 iter [C09,name:only-an-unreadable-file-is-skipped] decoded || err != nil
+
+// ---- C09 (C08/C11 for the block-local address): inferred targets of a body whose content is addressable as
+// ---- data. Loop 1: one group of targets per typed schema attribute; loops 2-8: one target per nested block
+// ---- type of kind object / list / set / map, with one nested target per written block of a list or map.
+//@ spec sameRangeAt(p *hcl.Range, q *hcl.Range) bool = p != nil && q != nil && p.Filename == q.Filename && p.Start == q.Start && p.End == q.End
+//@ contract (*decoder.PathDecoder).collectInferredReferenceTargetsForBody (d, addr, bAddrSchema, body, bodySchema, selfRefBodyRangePtr, selfRefAddr) (result)
+//@   assert before decoder.newExpression#1 : [C09,name:type-inferred-from-the-attribute-s-own-value-under-its-own-constraint] haskey(rawAttributes, name) && arg1 == rawAttributes[name].Expr && arg2 == aSchema.Constraint
+//@   assert before decoder.newExpression#2 : [C09,name:targets-of-the-attribute-s-own-value-under-its-own-constraint] arg2 == aSchema.Constraint && implies(haskey(content.Attributes, name), arg1 == content.Attributes[name].Expr)
+//@   assert before invoke:ReferenceTargets#1 : [C09,name:untyped-attribute-yields-nothing] attrType != cty.NilType
+//@   assert before invoke:ReferenceTargets#1 : [C09,name:attribute-address-is-the-body-address-plus-the-attribute-name] len(arg1.ParentAddress) == len(addr) + 1 && typeis(arg1.ParentAddress[len(addr)], "lang.AttrStep") && as(arg1.ParentAddress[len(addr)], "lang.AttrStep").Name == name
+//@   assert before invoke:ReferenceTargets#1 : [C09,name:scope-of-the-block-address-typed-by-the-expression] arg1.ScopeId == bAddrSchema.ScopeId && arg1.AsExprType
+//@   assert before invoke:ReferenceTargets#1 : [C09,C02,name:range-and-definition-range-of-the-written-attribute] implies(haskey(content.Attributes, name), arg1.ParentRangePtr != nil && *arg1.ParentRangePtr == content.Attributes[name].Range && arg1.ParentDefRangePtr != nil && *arg1.ParentDefRangePtr == content.Attributes[name].NameRange)
+//@   assert before invoke:ReferenceTargets#1 : [C09,C11,name:local-address-is-the-self-address-plus-the-attribute-name] implies(collectLocalAddr, len(arg1.ParentLocalAddress) == len(selfRefAddr) + 1 && typeis(arg1.ParentLocalAddress[len(selfRefAddr)], "lang.AttrStep") && as(arg1.ParentLocalAddress[len(selfRefAddr)], "lang.AttrStep").Name == name)
+//@   assert before invoke:ReferenceTargets#1 : [C08,C11,name:local-name-only-inside-its-block] implies(collectLocalAddr, arg1.TargetableFromRangePtr != nil)
+//@   assert before invoke:ReferenceTargets#1 : [C08,C11,name:local-name-targetable-from-the-self-reference-body-handed-down] implies(collectLocalAddr && selfRefBodyRangePtr != nil, sameRangeAt(arg1.TargetableFromRangePtr, selfRefBodyRangePtr))
+//@   assert before invoke:ReferenceTargets#1 : [C08,C11,name:local-name-targetable-from-this-body-when-it-is-the-self-reference-body] implies(collectLocalAddr && selfRefBodyRangePtr == nil, sameRangeAt(arg1.TargetableFromRangePtr, content.RangePtr))
+//@   assert before invoke:ReferenceTargets#1 : [C08,C11,name:no-local-address-unless-self-references-are-declared] implies(!(bAddrSchema.DependentBodySelfRef || bAddrSchema.BodySelfRef), arg1.ParentLocalAddress == nil && arg1.TargetableFromRangePtr == nil)
+//@   assert before decoder.blocksTypesWithSchema#1 : [C09,name:blocks-of-this-body-under-this-schema] arg0 == body && arg1 == bodySchema
+// object blocks (loop 2): one target, the body address plus the block type, ranged by the (first) written block
+//@   spec lastRef(ts reference.Targets) reference.Target = ts[len(ts)-1]
+//@   spec isAttrStepNamed(s lang.AddressStep, n string) bool = typeis(s, "lang.AttrStep") && as(s, "lang.AttrStep").Name == n
+//@   loop 2 iter [C09,name:one-target-per-object-block-type] len(refs) == old(len(refs)) + 1
+//@   loop 2 iter [C09,name:object-block-address-is-the-body-address-plus-the-block-type] len(lastRef(refs).Addr) == len(addr) + 1 && isAttrStepNamed(lastRef(refs).Addr[len(addr)], bType) && lastRef(refs).ScopeId == bAddrSchema.ScopeId
+//@   loop 2 iter [C09,C02,name:object-block-range-and-header] sameRangeVal(lastRef(refs).RangePtr, bCollection.Blocks[0].Range) && sameRangeVal(lastRef(refs).DefRangePtr, bCollection.Blocks[0].DefRange)
+//@   loop 2 iter [C09,C11,name:object-block-local-address] ite(collectLocalAddr, len(lastRef(refs).LocalAddr) == len(selfRefAddr) + 1 && isAttrStepNamed(lastRef(refs).LocalAddr[len(selfRefAddr)], bType) && lastRef(refs).TargetableFromRangePtr != nil, len(lastRef(refs).LocalAddr) == 0 && lastRef(refs).TargetableFromRangePtr == nil)
+//@   assert before (*decoder.PathDecoder).collectInferredReferenceTargetsForBody#1 : [C09,name:nested-targets-of-the-block-s-own-body-under-its-own-schema-and-address] arg1 == blockAddr && arg2 == bAddrSchema && arg3 == blk.Body && arg4 == bCollection.Schema.Body && arg6 == blockRef.LocalAddr
+//@   assert before decoder.bodySchemaAsAttrTypes#1 : [C09,name:typed-by-the-block-s-own-body-schema] arg0 == bCollection.Schema.Body
+// list blocks (loops 3, 6): one target for the block type and one nested target per written block, indexed by position
+//@   spec isIndexStepKeyed(s lang.AddressStep, k cty.Value) bool = typeis(s, "lang.IndexStep") && as(s, "lang.IndexStep").Key == k
+//@   loop 3 iter [C09,name:one-target-per-list-block-type] len(refs) == old(len(refs)) + 1
+//@   loop 3 iter [C09,name:list-block-address-is-the-body-address-plus-the-block-type] len(lastRef(refs).Addr) == len(addr) + 1 && isAttrStepNamed(lastRef(refs).Addr[len(addr)], bType) && lastRef(refs).ScopeId == bAddrSchema.ScopeId
+//@   loop 3 iter [C09,name:one-nested-target-per-written-block] len(lastRef(refs).NestedTargets) == old(len(bCollection.Blocks))
+//@   loop 3 iter [C09,C11,name:list-block-local-address] ite(collectLocalAddr, len(lastRef(refs).LocalAddr) == len(selfRefAddr) + 1 && lastRef(refs).TargetableFromRangePtr != nil, len(lastRef(refs).LocalAddr) == 0 && lastRef(refs).TargetableFromRangePtr == nil)
+//@   loop 6 invariant [C09] len(blockRef.NestedTargets) == rangeindex + 1 && blockRef.Addr == blockAddr && blockRef.ScopeId == bAddrSchema.ScopeId
+//@   loop 6 invariant [C09] len(blockAddr) == len(addr) + 1 && isAttrStepNamed(blockAddr[len(addr)], bType)
+//@   loop 6 invariant [C09] implies(collectLocalAddr, len(blockRef.LocalAddr) == len(selfRefAddr) + 1 && blockRef.TargetableFromRangePtr != nil)
+//@   loop 6 invariant [C09] implies(!collectLocalAddr, len(blockRef.LocalAddr) == 0 && blockRef.TargetableFromRangePtr == nil)
+//@   loop 6 iter [C09,name:one-element-per-written-block] len(blockRef.NestedTargets) == old(len(blockRef.NestedTargets)) + 1
+//@   loop 6 iter [C09,C02,name:first-list-element-keeps-its-own-extent] implies(i > 0, blockRef.NestedTargets[0].RangePtr.End == bCollection.Blocks[0].Range.End)
+//@   loop 6 iter [C09,name:list-element-address-is-the-list-address-plus-its-position] len(lastRef(blockRef.NestedTargets).Addr) == len(blockAddr) + 1 && isIndexStepKeyed(lastRef(blockRef.NestedTargets).Addr[len(blockAddr)], cty.NumberIntVal(int64(i))) && lastRef(blockRef.NestedTargets).ScopeId == bAddrSchema.ScopeId
+//@   loop 6 iter [C09,C02,name:list-element-range-and-header] sameRangeVal(lastRef(blockRef.NestedTargets).DefRangePtr, b.DefRange) && lastRef(blockRef.NestedTargets).RangePtr != nil && lastRef(blockRef.NestedTargets).RangePtr.Start == b.Range.Start && lastRef(blockRef.NestedTargets).RangePtr.Filename == b.Range.Filename
+//@   loop 6 iter [C09,C11,name:list-element-local-address] ite(collectLocalAddr, len(lastRef(blockRef.NestedTargets).LocalAddr) == len(blockRef.LocalAddr) + 1 && isIndexStepKeyed(lastRef(blockRef.NestedTargets).LocalAddr[len(blockRef.LocalAddr)], cty.NumberIntVal(int64(i))) && lastRef(blockRef.NestedTargets).TargetableFromRangePtr != nil, len(lastRef(blockRef.NestedTargets).LocalAddr) == 0 && lastRef(blockRef.NestedTargets).TargetableFromRangePtr == nil)
+//@   assert before (*decoder.PathDecoder).collectInferredReferenceTargetsForBody#2 : [C09,name:nested-targets-of-the-element-s-own-body-under-its-own-schema-and-address] arg1 == elemAddr && arg2 == bAddrSchema && arg3 == b.Body && arg4 == bCollection.Schema.Body && arg6 == elemRef.LocalAddr
+//@   assert before decoder.bodySchemaAsAttrTypes#2 : [C09,name:typed-by-the-block-s-own-body-schema] arg0 == bCollection.Schema.Body
+//@   assert before decoder.bodySchemaAsAttrTypes#3 : [C09,name:typed-by-the-block-s-own-body-schema] arg0 == bCollection.Schema.Body
+//@   spec sameRangeVal(p *hcl.Range, r hcl.Range) bool = p != nil && p.Filename == r.Filename && p.Start == r.Start && p.End == r.End
+// set blocks (loops 4, 7): one target for the block type, no nested targets
+//@   loop 4 iter [C09,name:one-target-per-set-block-type] len(refs) == old(len(refs)) + 1
+//@   loop 4 iter [C09,name:set-block-address-is-the-body-address-plus-the-block-type] len(lastRef(refs).Addr) == len(addr) + 1 && isAttrStepNamed(lastRef(refs).Addr[len(addr)], bType) && lastRef(refs).ScopeId == bAddrSchema.ScopeId
+//@   loop 7 invariant [C09] blockRef.Addr == blockAddr && blockRef.ScopeId == bAddrSchema.ScopeId && len(blockAddr) == len(addr) + 1 && isAttrStepNamed(blockAddr[len(addr)], bType)
+//@   assert before decoder.bodySchemaAsAttrTypes#4 : [C09,name:typed-by-the-block-s-own-body-schema] arg0 == bCollection.Schema.Body
+// map blocks (loops 5, 8): one target for the block type and one nested target per written block, keyed by its label
+//@   loop 5 iter [C09,name:one-target-per-map-block-type] len(refs) == old(len(refs)) + 1
+//@   loop 5 iter [C09,name:map-block-address-is-the-body-address-plus-the-block-type] len(lastRef(refs).Addr) == len(addr) + 1 && isAttrStepNamed(lastRef(refs).Addr[len(addr)], bType) && lastRef(refs).ScopeId == bAddrSchema.ScopeId
+//@   loop 5 iter [C09,name:one-nested-target-per-written-block] len(lastRef(refs).NestedTargets) == old(len(bCollection.Blocks))
+//@   loop 5 iter [C09,C11,name:map-block-local-address] ite(collectLocalAddr, len(lastRef(refs).LocalAddr) == len(selfRefAddr) + 1 && lastRef(refs).TargetableFromRangePtr != nil, len(lastRef(refs).LocalAddr) == 0 && lastRef(refs).TargetableFromRangePtr == nil)
+//@   loop 8 invariant [C09] len(blockRef.NestedTargets) == rangeindex + 1 && blockRef.Addr == blockAddr && blockRef.ScopeId == bAddrSchema.ScopeId
+//@   loop 8 invariant [C09] len(blockAddr) == len(addr) + 1 && isAttrStepNamed(blockAddr[len(addr)], bType)
+//@   loop 8 invariant [C09] implies(collectLocalAddr, len(blockRef.LocalAddr) == len(selfRefAddr) + 1 && blockRef.TargetableFromRangePtr != nil)
+//@   loop 8 invariant [C09] implies(!collectLocalAddr, len(blockRef.LocalAddr) == 0 && blockRef.TargetableFromRangePtr == nil)
+//@   loop 8 iter [C09,name:one-element-per-written-block] len(blockRef.NestedTargets) == old(len(blockRef.NestedTargets)) + 1
+//@   loop 8 iter [C09,C02,name:first-map-element-keeps-its-own-extent] implies(i > 0, blockRef.NestedTargets[0].RangePtr.End == bCollection.Blocks[0].Range.End)
+//@   loop 8 iter [C09,name:map-element-address-is-the-map-address-plus-its-label] len(lastRef(blockRef.NestedTargets).Addr) == len(blockAddr) + 1 && isIndexStepKeyed(lastRef(blockRef.NestedTargets).Addr[len(blockAddr)], cty.StringVal(b.Labels[0])) && lastRef(blockRef.NestedTargets).ScopeId == bAddrSchema.ScopeId
+//@   loop 8 iter [C09,C02,name:map-element-range-and-header] sameRangeVal(lastRef(blockRef.NestedTargets).DefRangePtr, b.DefRange) && lastRef(blockRef.NestedTargets).RangePtr != nil && lastRef(blockRef.NestedTargets).RangePtr.Start == b.Range.Start && lastRef(blockRef.NestedTargets).RangePtr.Filename == b.Range.Filename
+//@   loop 8 iter [C09,C11,name:map-element-local-address] ite(collectLocalAddr, len(lastRef(blockRef.NestedTargets).LocalAddr) == len(blockRef.LocalAddr) + 1 && isIndexStepKeyed(lastRef(blockRef.NestedTargets).LocalAddr[len(blockRef.LocalAddr)], cty.StringVal(b.Labels[0])) && lastRef(blockRef.NestedTargets).TargetableFromRangePtr != nil, len(lastRef(blockRef.NestedTargets).LocalAddr) == 0 && lastRef(blockRef.NestedTargets).TargetableFromRangePtr == nil)
+//@   assert before (*decoder.PathDecoder).collectInferredReferenceTargetsForBody#3 : [C09,name:nested-targets-of-the-element-s-own-body-under-its-own-schema-and-address] arg1 == elemAddr && arg2 == bAddrSchema && arg3 == b.Body && arg4 == bCollection.Schema.Body && arg6 == elemRef.LocalAddr
+//@   assert before decoder.bodySchemaAsAttrTypes#5 : [C09,name:typed-by-the-block-s-own-body-schema] arg0 == bCollection.Schema.Body
+//@   assert before decoder.bodySchemaAsAttrTypes#6 : [C09,name:typed-by-the-block-s-own-body-schema] arg0 == bCollection.Schema.Body
